@@ -171,6 +171,22 @@ def run(ctx, log):
                     ctx.disagree("word", case=cases[gi][0], impl=obs[gi], model="Word.v computes a different word / tag / payload (coq term: %s)" % sh[j])
         off += len(sh)
     log("correspondence: %d cases in Coq, %d disagreements" % (len(items), len(ctx.disagreements)))
+    # text stays what was written also after it has been edited in place: read back, measured and compared through
+    # the language (a box may cache nothing that an edit does not refresh)
+    import nlast
+    edits = []
+    for orig in ["abc", "héé", "🇳🇱x", "a", "aaaa", "é€語🇳"]:
+        for i in range(len(orig)):
+            for repl in ["", "Z", "ŋŋ", "lang stuk", "é"]:
+                e = orig[:i] + repl + orig[i + 1:]
+                edits.append(("stel s = %s; s[%d] = %s; stel t = %s; [s == t, t == s, s != t, lengte(s), s]" % (nlast.quote(orig), i, nlast.quote(repl), nlast.quote(e)),
+                              "OK #0=A[b1,b1,b0,i%d,#1=S%s]" % (len(e), nlast.cps(e))))
+    eo = vlib.nlh("eval", ["1000 " + vlib.hexs(src) for src, _ in edits], tag="c15e")
+    for (src, exp), o in zip(edits, eo):
+        ctx.seen(src)
+        ctx.count("edited-text")
+        if o.split(" | ")[0] != exp:
+            ctx.violate("a text edited in place is not read back / compared / measured as written", case=src, observed=o.split(" | ")[0][:200], expected=exp)
 
 
 def replay(ctx, data, log):
